@@ -200,6 +200,7 @@ def arm_rows():
                           (3, "WfiA1", sem_wfi), (4, "SevA1", hook("send_event"))):
         R.append(Row(cls, A32, "cccc001100100000++++----%s" % format(op2, "08b"), operands=lambda f, c: {}, sem=sem, group=G))
     R.append(Row("DBG", A32, "cccc001100100000++++----1111xxxx", notimpl=True, group=G))
+    R.append(Row("NopA1", A32, "cccc001100100000++++----xxxxxxxx", operands=lambda f, c: {}, sem=sem_nop, group=G))   # unallocated hints
     R.append(Row("MsrImmediateApplicationA1", A32, "cccc00110010mm00++++iiiiiiiiiiii", guard=lambda f: f["m"] != 0,
                  operands=lambda f, c: dict(write_nzcvq=T(f["m"] & 2), write_g=T(f["m"] & 1),
                                             imm32=bv.arm_expand_imm_c(f["i"], 0)[0]), sem=sem_msr_app, group=G))
@@ -210,9 +211,9 @@ def arm_rows():
     # miscellaneous instructions cccc 0001 0xx0 .... 0xxx
     R.append(Row("MRS (banked)", A32, "cccc00010x00xxxxxxxxxx1x0000xxxx", notimpl=True, group=G))
     R.append(Row("MSR (banked)", A32, "cccc00010x10xxxxxxxxxx1x0000xxxx", notimpl=True, group=G))
-    R.append(Row("MrsApplicationA1", A32, "cccc000100001111dddd--0-0000----", operands=lambda f, c: dict(d=f["d"]),
+    R.append(Row("MrsApplicationA1", A32, "cccc00010000++++dddd--0-0000----", operands=lambda f, c: dict(d=f["d"]),
                  unpredictable=lambda f, c: f["d"] == 15, sem=sem_mrs_cpsr, group=G))
-    R.append(Row("MrsSystemA1", A32, "cccc000101001111dddd--0-0000----", operands=lambda f, c: dict(d=f["d"], read_spsr=True),
+    R.append(Row("MrsSystemA1", A32, "cccc00010100++++dddd--0-0000----", operands=lambda f, c: dict(d=f["d"], read_spsr=True),
                  unpredictable=lambda f, c: f["d"] == 15, sem=sem_mrs_sys, group=G))
     R.append(Row("MsrRegisterApplicationA1", A32, "cccc00010010mm00++++--0-0000nnnn", guard=lambda f: f["m"] != 0,
                  operands=lambda f, c: dict(n=f["n"], write_nzcvq=T(f["m"] & 2), write_g=T(f["m"] & 1)),
@@ -232,6 +233,9 @@ def arm_rows():
         R.append(Row("SubsPcLrArmA1", A32, "cccc001%s1nnnn1111iiiiiiiiiiii" % o4,
                      operands=(lambda opc: lambda f, c: dict(register_form=False, n=f["n"], opcode=opc,
                                                              imm32=bv.arm_expand_imm_c(f["i"], 0)[0]))(opc),
+                     # ADDS/SUBS PC, PC, #imm: decode table A5-4 reads Rn=1111 as ADR for both values of S (see rows_dp)
+                     unpredictable=(lambda f, c: f["n"] == 15) if opc in (0b0100, 0b0010) else None,
+                     alt=("AdrA1", "AdrA2") if opc in (0b0100, 0b0010) else (),
                      sem=sem_subs_pc_lr_arm, group=G))
         R.append(Row("SubsPcLrArmA2", A32, "cccc000%s1nnnn1111iiiiitt0mmmm" % o4,
                      operands=(lambda opc: lambda f, c: dict(register_form=True, n=f["n"], m=f["m"], opcode=opc,
@@ -258,6 +262,8 @@ def arm_rows():
     # preloads
     R.append(Row("PldLiteralA1", A32, "11110101U+011111++++iiiiiiiiiiii", operands=lambda f, c: dict(add=T(f["U"]), imm32=f["i"]),
                  sem=hook("hint_preload_data"), group=G))
+    R.append(Row("PLDW (imm, MP extension)", A32, "11110101x001xxxxxxxxxxxxxxxxxxxx", notimpl=True, group=G))
+    R.append(Row("PLDW (reg, MP extension)", A32, "11110111x001xxxxxxxxxxxxxxx0xxxx", notimpl=True, group=G))
     R.append(Row("PldImmediateA1", A32, "11110101UR01nnnn++++iiiiiiiiiiii",
                  operands=lambda f, c: dict(add=T(f["U"]), is_pldw=f["R"] == 0, n=f["n"], imm32=f["i"]),
                  sem=hook("hint_preload_data"), group=G))
@@ -301,7 +307,7 @@ def arm_rows():
 
 def t16_rows():
     R = []
-    R.append(Row("SetendT1", T16, "101101100101E---", operands=lambda f, c: dict(set_bigend=T(f["E"])),
+    R.append(Row("SetendT1", T16, "10110110010+E---", operands=lambda f, c: dict(set_bigend=T(f["E"])),
                  unpredictable=lambda f, c: c["in_it"], sem=sem_setend, group=G))
     R.append(Row("CpsThumbT1", T16, "10110110011m-AIF",
                  operands=lambda f, c: dict(affect_a=T(f["A"]), affect_i=T(f["I"]), affect_f=T(f["F"]), enable=f["m"] == 0,
@@ -311,7 +317,7 @@ def t16_rows():
     for opa, cls, sem in ((0, "NopT1", sem_nop), (1, "YieldT1", hook("hint_yield")), (2, "WfeT1", sem_wfe),
                           (3, "WfiT1", sem_wfi), (4, "SevT1", hook("send_event"))):
         R.append(Row(cls, T16, "10111111%s0000" % format(opa, "04b"), operands=lambda f, c: {}, sem=sem, group=G))
-    R.append(Row("unallocated hint", T16, "10111111xxxx0000", operands=lambda f, c: {}, sem=sem_nop, group=G, notimpl=None))
+    R.append(Row("NopT1", T16, "10111111xxxx0000", operands=lambda f, c: {}, sem=sem_nop, group=G))      # unallocated hints
     R.append(Row("ItT1", T16, "10111111ccccmmmm", guard=lambda f: f["m"] != 0,
                  operands=lambda f, c: dict(firstcond=f["c"], mask=f["m"]),
                  unpredictable=lambda f, c: f["c"] == 15 or (f["c"] == 14 and bv.bit_count(f["m"]) != 1) or c["in_it"],
@@ -335,7 +341,7 @@ def t32_rows():
                           (3, "WfiT2", sem_wfi), (4, "SevT2", hook("send_event"))):
         R.append(Row(cls, T32, "111100111010++++10-0-000%s" % format(op2, "08b"), operands=lambda f, c: {}, sem=sem, group=G))
     R.append(Row("DBG T", T32, "111100111010++++10-0-0001111xxxx", notimpl=True, group=G))
-    R.append(Row("unallocated hint T2", T32, "111100111010++++10-0-000xxxxxxxx", operands=lambda f, c: {}, sem=sem_nop, group=G))
+    R.append(Row("NopT2", T32, "111100111010++++10-0-000xxxxxxxx", operands=lambda f, c: {}, sem=sem_nop, group=G))  # unallocated hints
     R.append(Row("CpsThumbT2", T32, "111100111010++++10-0-iiMAIFmmmmm",
                  operands=lambda f, c: dict(affect_a=T(f["A"]), affect_i=T(f["I"]), affect_f=T(f["F"]), enable=f["i"] == 2,
                                             disable=f["i"] == 3, change_mode=T(f["M"]), mode=f["m"]),
@@ -350,7 +356,7 @@ def t32_rows():
     R.append(Row("DMB T", T32, "111100111011++++10-0++++0101oooo", notimpl=True, group=G))
     R.append(Row("IsbT1", T32, "111100111011++++10-0++++0110oooo", operands=lambda f, c: {},
                  sem=hook("instruction_synchronization_barrier"), group=G))
-    R.append(Row("EretT1", T32, "111100111101111010-0++++00000000", operands=lambda f, c: {},
+    R.append(Row("EretT1", T32, "111100111101+++-10-0++++00000000", operands=lambda f, c: {},
                  unpredictable=lambda f, c: c["in_it"] and not c["last_it"], sem=sem_eret, group=G))
     R.append(Row("SubsPcLrThumbT1", T32, "111100111101+++-10-0++++iiiiiiii", operands=lambda f, c: dict(n=14, imm32=f["i"]),
                  unpredictable=lambda f, c: c["in_it"] and not c["last_it"], sem=sem_subs_pc_lr_thumb, group=G))
